@@ -42,6 +42,7 @@ def strategy_(g):
         # a second state of the same edge object: the error must follow the current vertex poses
         case["p1b"] = g.pose(k0, s=g.choice([1.0, 10.0]))
         case["p2b"] = g.pose(k1, s=g.choice([1.0, 10.0]))
+        case["fixed"] = [g.choice([False, False, True]), g.choice([False, False, True])]  # irrelevant to errors and chi2
         return case
     # small graph
     k = g.kind()
@@ -156,6 +157,8 @@ def check(case, ctx):
     ctx.nontrivial(nontriv or offdiag or illcond)
 
     edge, v1, v2 = E.build_edge(case)
+    if "fixed" in case:
+        v1.fixed, v2.fixed = bool(case["fixed"][0]), bool(case["fixed"][1])
     k0, k1, kz, ko = E.kinds_of(ek)
     n = R.CDIM[kz]
 
